@@ -410,7 +410,7 @@ def tier_and_seed(argv):
 
 def differential(res, prop, sub, cases, to_coq, requires, mismatch_fn, model_fn, oracle,
                  group_oracle=None, shrink=None, nontrivial=None, signature=None, shards=16,
-                 theorems_note="", strip=None, tag="cases", canon=None):
+                 theorems_note="", strip=None, tag="cases", canon=None, confirm=True):
     """Run `cases` on the implementation (harness subcommand `sub`) and on the Coq model.
     oracle(case, obs) -> None or a string describing an implementation-side property failure.
     group_oracle(cases, obs) -> list of (index, message).
@@ -448,6 +448,12 @@ def differential(res, prop, sub, cases, to_coq, requires, mismatch_fn, model_fn,
         if key in reported:
             continue
         reported.add(key)
+        if sig is None and confirm:
+            again = confirm_failure(res, prop, sub, strip(c) if strip else c, c, oracle)
+            if again is None:
+                continue
+            if again[1] is not None:
+                msg, o = again
         res.violation({"property": prop, "kind": "implementation violates property oracle", "what": msg,
                        "case": c, "impl_obs": o, "harness": sub, "signature": sig}, found_input=True, signature=sig)
     # model vs implementation
@@ -468,6 +474,28 @@ def differential(res, prop, sub, cases, to_coq, requires, mismatch_fn, model_fn,
                        "case": cases[i], "impl_obs": obs[i], "model_obs": parse_obs(mo) or mo[-1500:]},
                       found_input=False)
     return obs
+
+
+def confirm_failure(res, prop, sub, hcase, case, oracle, tries=2, tag="confirm"):
+    """A property-oracle failure on a real-socket scenario is only reported when it reproduces with the case run ALONE
+    (the check machine may be busy: scenarios with deadlines can miss them in a parallel batch). Returns (msg, obs)
+    of the first re-run that fails again, or None after `tries` clean re-runs (recorded as a note, never silently)."""
+    if os.environ.get("VERIF_NO_CONFIRM"):
+        return ("(not re-run)", None)
+    for k in range(tries):
+        obs, _ = run_harness(sub, [hcase], prop, tag=tag)
+        if obs is None or len(obs) != 1:
+            return ("(re-run could not be executed)", None)
+        try:
+            m = oracle(case, obs[0])
+        except Exception as e:      # an oracle that cannot judge the re-run does not excuse the original failure
+            return ("(oracle failed on the re-run: %s)" % e, None)
+        if m:
+            return (m, obs[0])
+    res.notes.append("not reproduced in %d isolated re-runs (machine load?), not reported: %s" % (tries, json.dumps(case)[:300]))
+    res.count("oracle-failure-not-reproduced-alone")
+    return None
+
 
 
 def shrink_case(prop, sub, c, o, msg, oracle, shrink, rounds=6):
